@@ -1074,3 +1074,492 @@ def ply_tokens(text):
         out.append((t.type, t.value, t.lexpos, getattr(t, 'endlexpos', t.lexpos), t.lineno,
                     getattr(t, 'endlineno', t.lineno)))
     return out
+
+
+# --------------------------------------------------------------------------------------- executable programs (C08)
+
+EXEC_SCHEMA = '''
+CREATE TABLE A (Id INTEGER, Name STRING, N INTEGER, Flag BOOLEAN, Next_Id INTEGER);
+CREATE TABLE B (Id INTEGER, A_Id INTEGER, V INTEGER);
+CREATE TABLE C (Id INTEGER, A_Id INTEGER, W INTEGER);
+CREATE ROP REF_ID R1 FROM MC B (A_Id) TO 1 A (Id);
+CREATE ROP REF_ID R2 FROM 1C C (A_Id) TO 1 A (Id);
+CREATE ROP REF_ID R3 FROM 1C A (Next_Id) PHRASE 'prev' TO 1C A (Id) PHRASE 'next';
+INSERT INTO A VALUES (1, 'one', 10, true, 2);
+INSERT INTO A VALUES (2, 'two', 20, false, 3);
+INSERT INTO A VALUES (3, 'three', 30, true, 0);
+INSERT INTO B VALUES (1, 1, 5);
+INSERT INTO B VALUES (2, 1, 6);
+INSERT INTO B VALUES (3, 2, 7);
+INSERT INTO B VALUES (4, 0, 8);
+INSERT INTO C VALUES (1, 1, 100);
+INSERT INTO C VALUES (2, 3, 300);
+'''
+EXEC_CLASSES = {'A': ['Id', 'N'], 'B': ['Id', 'V'], 'C': ['Id', 'W']}
+EXEC_ATTRS = {'A': ['Id', 'Name', 'N', 'Flag', 'Next_Id'], 'B': ['Id', 'A_Id', 'V'], 'C': ['Id', 'A_Id', 'W']}
+# navigations  (from class, to class, rel, phrase or None, many?)
+EXEC_NAV = [('A', 'B', 'R1', None, True), ('B', 'A', 'R1', None, False), ('A', 'C', 'R2', None, False),
+            ('C', 'A', 'R2', None, False), ('A', 'A', 'R3', "'next'", False), ('A', 'A', 'R3', "'prev'", False)]
+
+
+class ExecGen(Gen):
+    """programs that run on the EXEC_SCHEMA population under bridgepoint.interpret.run_function and prebuild as
+    the body of a function; every variable is defined before it is used, instance handles are tested with
+    not_empty before they are dereferenced, loops are bounded by counters"""
+
+    def __init__(self, rng, max_stmts=8, prebuildable=True):
+        Gen.__init__(self, rng, 2, max_stmts, False)
+        self.ints = []          # integer variables in scope
+        self.insts = []         # (name, class) possibly empty handles
+        self.safe = []          # (name, class) handles known to be non-empty here
+        self.sets = []          # (name, class)
+        self.fresh = 0
+        self.next_id = 50
+        self.loop = 0
+        self.prebuildable = prebuildable
+
+    def name(self, prefix):
+        self.fresh += 1
+        return '%s%d' % (prefix, self.fresh)
+
+    def idt(self, s):
+        return self.t('ID', s)
+
+    def num(self, n):
+        return self.t('NUMBER', str(n))
+
+    # ---- expressions (emit tokens only)
+    def int_expr(self, d=0):
+        r = self.r
+        k = r.random()
+        if d >= 2 or k < 0.3:
+            self.num(r.choice([0, 1, 2, 3, 5, 7, 10, 25]))
+        elif k < 0.5 and self.ints:
+            self.idt(r.choice(self.ints))
+        elif k < 0.62 and self.safe:
+            nm, cls = r.choice(self.safe)
+            self.idt(nm)
+            self.pn('DOT')
+            self.idt(r.choice(EXEC_CLASSES[cls]))
+        elif k < 0.72 and self.sets:
+            self.kw('cardinality')
+            self.idt(r.choice(self.sets)[0])
+        elif k < 0.78:
+            self.kw('param')
+            self.pn('DOT')
+            self.idt('n')
+        elif k < 0.84:
+            self.pn(r.choice(['MINUS', 'PLUS']))
+            self.pn('LPAREN')
+            self.int_expr(d + 1)
+            self.pn('RPAREN')
+        else:
+            self.pn('LPAREN')
+            self.int_expr(d + 1)
+            op = r.choice(['PLUS', 'MINUS', 'TIMES', 'DIV', 'MOD'])
+            self.pn(op)
+            if op in ('DIV', 'MOD'):
+                self.num(r.choice([1, 2, 3, 7]))
+            else:
+                self.int_expr(d + 1)
+            self.pn('RPAREN')
+
+    def bool_expr(self, d=0):
+        r = self.r
+        k = r.random()
+        if d >= 2 or k < 0.15:
+            self.kw(r.choice(['true', 'false']))
+        elif k < 0.45:
+            self.pn('LPAREN')
+            self.int_expr(1)
+            self.pn(r.choice(['LESSTHAN', 'LE', 'DOUBLEEQUAL', 'NOTEQUAL', 'GE', 'GT']))
+            self.int_expr(1)
+            self.pn('RPAREN')
+        elif k < 0.6:
+            self.pn('LPAREN')
+            self.bool_expr(d + 1)
+            self.kw(r.choice(['and', 'or']))
+            self.bool_expr(d + 1)
+            self.pn('RPAREN')
+        elif k < 0.72:
+            self.kw('not')
+            self.pn('LPAREN')
+            self.bool_expr(d + 1)
+            self.pn('RPAREN')
+        elif k < 0.86 and (self.insts or self.sets):
+            self.pn('LPAREN')
+            self.kw(r.choice(['empty', 'not_empty']))
+            self.idt(r.choice(self.insts + self.sets)[0])
+            self.pn('RPAREN')
+        elif self.safe:
+            nm, cls = r.choice(self.safe)
+            self.pn('LPAREN')
+            self.idt(nm)
+            self.pn('DOT')
+            self.idt(r.choice(EXEC_CLASSES[cls]))
+            self.pn(r.choice(['LESSTHAN', 'GT', 'DOUBLEEQUAL']))
+            self.num(r.choice([1, 2, 6, 20]))
+            self.pn('RPAREN')
+        else:
+            self.kw(r.choice(['true', 'false']))
+
+    def where(self, cls):
+        self.kw('where')
+        self.pn('LPAREN')
+        r = self.r
+        self.kw('selected')
+        self.pn('DOT')
+        self.idt(r.choice(EXEC_CLASSES[cls]))
+        self.pn(r.choice(['LESSTHAN', 'GT', 'DOUBLEEQUAL', 'NOTEQUAL', 'GE']))
+        self.num(r.choice([0, 1, 2, 6, 20, 100]))
+        if r.random() < 0.3:
+            self.kw(r.choice(['and', 'or']))
+            self.kw(r.choice(['true', 'false', 'not']))
+            if self.p.toks[-1].lexeme == 'not':
+                self.kw(r.choice(['true', 'false']))
+        self.pn('RPAREN')
+
+    # ---- statements (each emits its ';')
+    def end(self):
+        self.pn('SEMICOLON')
+
+    def x_select_from(self):
+        r = self.r
+        cls = r.choice(list(EXEC_CLASSES))
+        many = r.random() < 0.5
+        self.kw('select')
+        self.kw('many' if many else 'any')
+        v = self.name('s' if many else 'i')
+        self.idt(v)
+        self.kw('from')
+        self.kw('instances')
+        self.kw('of')
+        self.idt(cls)
+        if r.random() < 0.5:
+            self.where(cls)
+        self.end()
+        (self.sets if many else self.insts).append((v, cls))
+        self.p.count('x-select-from')
+
+    def guarded(self, body):
+        """if (not_empty h) <body using h as safe> end if;  for a random possibly-empty handle"""
+        h = self.r.choice(self.insts)
+        self.kw('if')
+        self.pn('LPAREN')
+        self.kw('not_empty')
+        self.idt(h[0])
+        self.pn('RPAREN')
+        if self.r.random() < 0.3:
+            self.kw('then')
+        saved = (list(self.ints), list(self.insts), list(self.safe), list(self.sets))
+        self.safe.append(h)
+        body(h)
+        self.ints, self.insts, self.safe, self.sets = saved
+        if self.r.random() < 0.3:
+            self.kw('else')
+            self.x_assign_int()
+            self.ints = saved[0]
+        self.end_tok('if')
+        self.end()
+
+    def x_select_related(self):
+        if not self.insts:
+            return self.x_select_from()
+
+        def body(h):
+            r = self.r
+            navs = [n for n in EXEC_NAV if n[0] == h[1]]
+            frm, to, rel, phrase, many = r.choice(navs)
+            card = r.choice(['many', 'any']) if many else r.choice(['one', 'any'])
+            v = self.name('r')
+            self.kw('select')
+            self.kw(card)
+            self.idt(v)
+            self.kw('related')
+            self.kw('by')
+            self.idt(h[0])
+            self.pn('ARROW')
+            self.idt(to)
+            self.pn('LSQBR')
+            self.idt(rel)
+            if phrase:
+                self.pn('DOT')
+                self.t('TICKED_PHRASE', phrase)
+            self.pn('RSQBR')
+            if r.random() < 0.3:
+                self.where(to)
+            self.end()
+            # use the result right away: count it into the accumulator
+            self.idt('acc')
+            self.pn('EQUAL')
+            self.idt('acc')
+            self.pn('PLUS')
+            if card == 'many':
+                self.kw('cardinality')
+                self.idt(v)
+            else:
+                self.pn('LPAREN')
+                self.num(1)
+                self.pn('RPAREN')
+            self.end()
+            self.p.count('x-select-related')
+        self.guarded(body)
+
+    def x_assign_int(self):
+        r = self.r
+        if self.ints and r.random() < 0.6:
+            v = r.choice(self.ints)
+        else:
+            v = self.name('n')
+        if r.random() < 0.2:
+            self.kw('assign')
+        self.idt(v)
+        self.pn('EQUAL')
+        self.int_expr()
+        self.end()
+        if v not in self.ints:
+            self.ints.append(v)
+        self.p.count('x-assign')
+
+    def x_acc(self):
+        """acc = acc * 3 + <int expr>  (makes the result depend on everything evaluated so far)"""
+        self.idt('acc')
+        self.pn('EQUAL')
+        self.idt('acc')
+        self.pn('TIMES')
+        self.num(3)
+        self.pn('PLUS')
+        self.int_expr()
+        self.end()
+
+    def x_attr_write(self):
+        if not self.insts:
+            return self.x_assign_int()
+
+        def body(h):
+            attr = {'A': 'N', 'B': 'V', 'C': 'W'}[h[1]]
+            self.idt(h[0])
+            self.pn('DOT')
+            self.idt(attr)
+            self.pn('EQUAL')
+            self.int_expr()
+            self.end()
+            self.p.count('x-attr-write')
+        self.guarded(body)
+
+    def x_if(self, depth):
+        r = self.r
+        self.kw('if')
+        self.bool_expr()
+        if r.random() < 0.3:
+            self.kw('then')
+        saved = (list(self.ints), list(self.insts), list(self.safe), list(self.sets))
+        self.x_block(depth + 1)
+        for _ in range(r.choice([0, 0, 1, 2])):
+            self.ints, self.insts, self.safe, self.sets = [list(x) for x in saved]
+            self.kw('elif')
+            self.bool_expr()
+            if r.random() < 0.3:
+                self.kw('then')
+            self.x_block(depth + 1)
+        if r.random() < 0.5:
+            self.ints, self.insts, self.safe, self.sets = [list(x) for x in saved]
+            self.kw('else')
+            self.x_block(depth + 1)
+        self.ints, self.insts, self.safe, self.sets = saved
+        self.end_tok('if')
+        self.end()
+        self.p.count('x-if')
+
+    def x_while(self, depth):
+        r = self.r
+        c = self.name('k')
+        self.idt(c)
+        self.pn('EQUAL')
+        self.num(0)
+        self.end()
+        self.ints.append(c)
+        self.kw('while')
+        self.pn('LPAREN')
+        self.idt(c)
+        self.pn('LESSTHAN')
+        self.num(r.choice([1, 2, 3, 4]))
+        self.pn('RPAREN')
+        if r.random() < 0.3:
+            self.kw('loop')
+        saved = (list(self.ints), list(self.insts), list(self.safe), list(self.sets))
+        self.idt(c)
+        self.pn('EQUAL')
+        self.idt(c)
+        self.pn('PLUS')
+        self.num(1)
+        self.end()
+        self.loop += 1
+        self.x_block(depth + 1)
+        self.loop -= 1
+        self.ints, self.insts, self.safe, self.sets = saved
+        self.end_tok('while')
+        self.end()
+        self.p.count('x-while')
+
+    def x_for(self, depth):
+        if not self.sets:
+            return self.x_select_from()
+        r = self.r
+        s, cls = r.choice(self.sets)
+        v = self.name('e')
+        self.kw('for')
+        self.kw('each')
+        self.idt(v)
+        self.kw('in')
+        self.idt(s)
+        if r.random() < 0.3:
+            self.kw('loop')
+        saved = (list(self.ints), list(self.insts), list(self.safe), list(self.sets))
+        self.safe.append((v, cls))
+        self.loop += 1
+        self.x_acc()
+        self.x_block(depth + 1)
+        self.loop -= 1
+        self.ints, self.insts, self.safe, self.sets = saved
+        self.end_tok('for')
+        self.end()
+        self.p.count('x-for')
+
+    def x_jump(self):
+        r = self.r
+        self.kw('if')
+        self.bool_expr()
+        k = r.random()
+        if self.loop and k < 0.45:
+            self.kw('break')
+            self.p.count('x-break')
+        elif self.loop and k < 0.9:
+            self.kw('continue')
+            self.p.count('x-continue')
+        else:
+            self.kw('return')
+            self.idt('acc')
+            self.p.count('x-return')
+        self.end()
+        self.end_tok('if')
+        self.end()
+
+    def x_create(self):
+        """create an instance, give it an id, relate it, maybe unrelate / delete it again"""
+        r = self.r
+        cls = r.choice(['B', 'C', 'B'])
+        v = self.name('c')
+        self.kw('create')
+        self.kw('object')
+        self.kw('instance')
+        self.idt(v)
+        self.kw('of')
+        self.idt(cls)
+        self.end()
+        self.next_id += 1
+        self.idt(v)
+        self.pn('DOT')
+        self.idt('Id')
+        self.pn('EQUAL')
+        self.num(self.next_id)
+        self.end()
+        self.p.count('x-create')
+        related = None
+        if r.random() < 0.7:
+            a = self.name('a')
+            self.kw('select')
+            self.kw('any')
+            self.idt(a)
+            self.kw('from')
+            self.kw('instances')
+            self.kw('of')
+            self.idt('A')
+            self.kw('where')
+            self.pn('LPAREN')
+            self.kw('selected')
+            self.pn('DOT')
+            self.idt('Id')
+            self.pn('DOUBLEEQUAL')
+            # a C may only be related to an A that has none yet (A2); a B to any A
+            self.num(2 if cls == 'C' else r.choice([1, 2, 3]))
+            self.pn('RPAREN')
+            self.end()
+            rel = 'R1' if cls == 'B' else 'R2'
+            if cls == 'B' or not getattr(self, 'c_related', False):
+                self.kw('relate')
+                self.idt(v)
+                self.kw('to')
+                self.idt(a)
+                self.kw('across')
+                self.idt(rel)
+                self.end()
+                related = (a, rel)
+                if cls == 'C':
+                    self.c_related = True
+                self.p.count('x-relate')
+        if related and r.random() < 0.4:
+            self.kw('unrelate')
+            self.idt(v)
+            self.kw('from')
+            self.idt(related[0])
+            self.kw('across')
+            self.idt(related[1])
+            self.end()
+            if related[1] == 'R2':
+                self.c_related = False
+            related = None
+            self.p.count('x-unrelate')
+        if not related and r.random() < 0.5:
+            self.kw('delete')
+            self.kw('object')
+            self.kw('instance')
+            self.idt(v)
+            self.end()
+            self.p.count('x-delete')
+        else:
+            self.safe.append((v, cls))
+            self.insts.append((v, cls))
+
+    def x_block(self, depth):
+        r = self.r
+        for _ in range(r.choice([1, 1, 2, 3]) if depth else r.randint(3, self.max_stmts)):
+            k = r.random()
+            if k < 0.16:
+                self.x_select_from()
+            elif k < 0.28:
+                self.x_select_related()
+            elif k < 0.40:
+                self.x_assign_int()
+            elif k < 0.52:
+                self.x_acc()
+            elif k < 0.60:
+                self.x_attr_write()
+            elif k < 0.70 and depth < 2:
+                self.x_if(depth)
+            elif k < 0.77 and depth < 2:
+                self.x_while(depth)
+            elif k < 0.86 and depth < 2:
+                self.x_for(depth)
+            elif k < 0.92 and depth == 0 and self.loop == 0:
+                self.x_create()
+            elif k < 0.97:
+                self.x_jump()
+            else:
+                self.x_acc()
+
+    def program(self):
+        self.idt('acc')
+        self.pn('EQUAL')
+        self.num(1)
+        self.end()
+        self.ints.append('acc')
+        self.x_block(0)
+        self.kw('return')
+        self.idt('acc')
+        self.end()
+        return self.p
+
+
+def gen_exec_program(rng, max_stmts=8):
+    return ExecGen(rng, max_stmts).program()
